@@ -109,3 +109,13 @@ def drop_last_matches(c, ln_term, arr_term, seq):
     p = z3.Int('dl_p')
     m = z3.If(n >= 1, n - 1, 0)
     return z3.And(ln_term == m, z3.ForAll([p], z3.Implies(z3.And(p >= 0, p < m), arr_term[p] == c.eng.seq_at(c.ctx, seq, p))))
+
+
+def FA(vs, body, patterns=None):
+    """ForAll with patterns when z3 accepts them (patterns over post-state terms may contain store/ite and be rejected)."""
+    if patterns:
+        try:
+            return z3.ForAll(vs, body, patterns=patterns)
+        except z3.Z3Exception:
+            pass
+    return z3.ForAll(vs, body)
